@@ -75,7 +75,8 @@ class Lemma:
 
 
 class ClassDecl:
-    def __init__(self, key, fields, invariant=(), bases=(), construct=None, private_prefix=None, gen=None, virtual=None):
+    def __init__(self, key, fields, invariant=(), bases=(), construct=None, private_prefix=None, gen=None, virtual=None, consts=None):
+        self.consts = dict(consts or {})     # fields with a fixed value (stated class invariant)
         self.gen = gen
         self.virtual = dict(virtual or {})   # callable fields given by a handler (stated class invariant on that field)
         self.key = key                  # "path.py:ClassName"
@@ -90,7 +91,8 @@ class Contract:
     def __init__(self, key, params, returns=None, requires=(), ensures=(), raises=None, loops=None,
                  modifies=(), inline=(), witness=(), ghost=(), trusted=False, pure=False, note="",
                  raise_ensures=None, decreases=None, body=None, unroll=None, assume_valid=True,
-                 replay=None, props=(), lemmas=(), locals=None, hints=(), domains=None, gen=None, ghost_scope=None, no_runtime=False, bounded_only=False):
+                 replay=None, props=(), lemmas=(), locals=None, hints=(), domains=None, gen=None, ghost_scope=None, no_runtime=False, bounded_only=False, depth=None):
+        self.depth = depth                # rounds of definitional unfolding for this function's VCs (None: portfolio 1,2,3)
         self.no_runtime = no_runtime      # no run-time cross-check (e.g. constructors whose receiver cannot be pre-built)
         self.bounded_only = bounded_only  # outside the verifier's reach: only the bounded stand-in runs
         self.ghost_scope = ghost_scope     # for ghost client code: repo module whose names are in scope
